@@ -253,6 +253,7 @@ type LState struct {
 	alloc        *allocator
 	currentFrame *callFrame
 	wrapped      bool
+	nccalls      int // calls from Go code into this thread that have not returned yet
 	uvcache      *Upvalue
 	hasErrorFunc bool
 	mainLoop     func(*LState, *callFrame)
